@@ -84,6 +84,8 @@ MUTANTS = [
      "MC_race", "MC_race.cfg", {'PopMode = "identity"': 'PopMode = "before"', "ACTION_CONSTRAINT EmitSchedule\n": ""}, "NoLostUpdate"),
     ("flush forgets before writing and the write fails (C08 under concurrency)", "FlushRace.tla", None, None,
      "MC_race", "MC_race_fault.cfg", {'PopMode = "identity"': 'PopMode = "before"', "ACTION_CONSTRAINT EmitSchedule\n": "", "Senders <- S2": "Senders <- S1"}, "NoLostUpdate"),
+    ("writers wait for drain before handing their bytes over", "WriteOrder.tla", None, None,
+     "MC_writeorder", "MC_writeorder.cfg", {'Mode = "write_first"': 'Mode = "drain_first"', "ACTION_CONSTRAINT EmitSchedule\n": ""}, "InOrder"),
     ("stop cancels the saver", "Lifecycle.tla", None, None,
      "MC_lifecycle", "MC_lifecycle.cfg", {'StopMode = "event"': 'StopMode = "cancel"', "ACTION_CONSTRAINT EmitSchedule\n": ""}, "*"),
     ("connect failure does not stop persistence", "Lifecycle.tla", None, None,
